@@ -41,18 +41,20 @@ Qed.
 (* ---- the per-face theorems at the public entry point, tol = 1e-8 ------------------------------------------------- *)
 (* every returned triangle j comes from the input face mapping[j] through the per-face kernel; it lies in that face, and if
    the face was selected no point of it is further than 1e-8 behind the plane *)
-Theorem public_slice_sound vs fs ref n mask r : vs <> [] ->
+Theorem public_slice_sound vs fs ref n mask r : vs <> [] -> mask_ok (length fs) mask ->
   slice_triangles_by_plane ROps vs fs ref n mask = Ok r ->
   forall i x, In (i, x) (zip (mo_map r) (mesh_tris (mo_v r) (mo_f r))) ->
   exists f t t' m, nth_error fs i = Some f /\ lookup3 vs f = Some t /\ x = Some t' /\
+    nth_error (mask_list (length fs) mask) i = Some m /\
     In t' (slice_face ROps (merge_tol ROps) (patch_eps ROps) n ref m t) /\
     forall p, in_tri t' p -> in_tri t p /\ (m = true -> (- merge_tol ROps <= pd n ref p)%R).
 Proof.
-  intros Hvs Hr i x Hin.
-  destruct (slice_mesh_is_per_face _ _ _ _ _ _ _ _ Hvs Hr) as (mk & rows & _ & _ & Hrows & Hp).
+  intros Hvs Hmk Hr i x Hin.
+  destruct (slice_mesh_is_per_face _ _ _ _ _ _ _ _ Hvs Hr) as (mk & rows & Hm & _ & Hrows & Hp).
+  rewrite (mask_of_public _ _ Hmk) in Hm. injection Hm as <-.
   apply (Permutation_in _ Hp) in Hin. apply in_flat_map in Hin. destruct Hin as ((j & d) & Hjd & Hy).
   cbn [fst snd] in Hy. apply in_map_iff in Hy. destruct Hy as (t' & [= <- <-] & Ht').
-  apply indexed_In in Hjd. destruct (Hrows _ _ Hjd) as (Hf & _ & Hlk).
+  apply indexed_In in Hjd. destruct (Hrows _ _ Hjd) as (Hf & Hmi & Hlk).
   exists (fd_f d), (fd_t d), t', (fd_m d). repeat split; try assumption.
   - exact (proj1 (slice_face_sound _ _ _ _ _ _ _ _ merge_tol_nonneg Ht' H)).
   - exact (proj2 (slice_face_sound _ _ _ _ _ _ _ _ merge_tol_nonneg Ht' H)).
@@ -192,6 +194,63 @@ Proof.
       rewrite map_map, !lookup3_map, (lookup3_relabel vs vs' g f t Hg El). cbn [option_map].
       eexists. split; [reflexivity|]. reflexivity. }
     rewrite R2 in R2'. injection R2' as <-. symmetry. exact Hrows.
+Qed.
+
+(* ... with provenance: pairing every returned triangle with the INPUT FACE its mapping entry names (the index triple), the two
+   results are permutations of each other — the mapping follows the permutation of the faces *)
+Lemma resolve_nth (vs : list (vec3 R)) dots sg fs mask fds i d :
+  resolve vs dots sg fs mask = Some fds -> nth_error fds i = Some d -> nth_error fs i = Some (fd_f d).
+Proof.
+  intros Hr Hi. unfold resolve in Hr. pose proof (all_some_nth _ _ _ _ Hr Hi) as Hn.
+  rewrite nth_error_map in Hn. destruct (nth_error (zip fs mask) i) as [[f m]|] eqn:Ez; [|discriminate].
+  cbn [option_map] in Hn. injection Hn as Hn. apply nth_error_zip in Ez. destruct Ez as [Ef _].
+  unfold resolve1 in Hn. cbn [fst snd] in Hn. destruct (lookup3 vs f); [|discriminate].
+  destruct (lookup3 dots f); [|discriminate]. destruct (lookup3 sg f); [|discriminate]. injection Hn as <-. exact Ef.
+Qed.
+Lemma sources_of_rows eps (vs : list (vec3 R)) dots sg fs mask fds :
+  resolve vs dots sg fs mask = Some fds ->
+  map (with_source fs) (flat_map (per_face eps) (indexed fds)) =
+  flat_map (fun d => map (fun t' => (Some (fd_f d), Some t'))
+                         (slice_face_signs ROps eps (fd_d d) (fd_s d) (fd_m d) (fd_t d))) fds.
+Proof.
+  intros Hr. rewrite map_flat_map. unfold indexed.
+  rewrite <- (flat_map_indexed_snd (fun d : fdata => map (fun t' => (Some (fd_f d), Some t'))
+                (slice_face_signs ROps eps (fd_d d) (fd_s d) (fd_m d) (fd_t d))) fds 0).
+  apply flat_map_ext_in'. intros (i & d) Hx. apply indexed_In in Hx. unfold per_face. rewrite map_map. cbn [fst snd].
+  apply map_ext. intros t'. unfold with_source. cbn [fst snd]. rewrite (resolve_nth _ _ _ _ _ _ _ _ Hr Hx). reflexivity.
+Qed.
+Theorem public_face_order_invariant_provenance vs fs fs' ref n mask mask' r r' : vs <> [] ->
+  mask_ok (length fs) mask -> mask_ok (length fs') mask' ->
+  Permutation (zip fs (mask_list (length fs) mask)) (zip fs' (mask_list (length fs') mask')) ->
+  slice_triangles_by_plane ROps vs fs ref n mask = Ok r ->
+  slice_triangles_by_plane ROps vs fs' ref n mask' = Ok r' ->
+  Permutation (map (with_source fs) (zip (mo_map r) (mesh_tris (mo_v r) (mo_f r))))
+              (map (with_source fs') (zip (mo_map r') (mesh_tris (mo_v r') (mo_f r')))).
+Proof.
+  intros Hvs Hm Hm' Hp H1 H2.
+  destruct (public_rows _ _ _ _ _ _ Hvs Hm H1) as (fds & R1 & ->).
+  destruct (public_rows _ _ _ _ _ _ Hvs Hm' H2) as (fds' & R2 & ->).
+  pose proof (slice_fds_per_face (patch_eps ROps) vs fds (fun d Hd => resolve_wf _ _ _ _ _ _ _ R1 Hd)) as P1.
+  pose proof (slice_fds_per_face (patch_eps ROps) vs fds' (fun d Hd => resolve_wf _ _ _ _ _ _ _ R2 Hd)) as P2.
+  apply (Permutation_map (with_source fs)) in P1. apply (Permutation_map (with_source fs')) in P2.
+  rewrite (sources_of_rows _ _ _ _ _ _ _ R1) in P1. rewrite (sources_of_rows _ _ _ _ _ _ _ R2) in P2.
+  eapply Permutation_trans; [exact P1|]. eapply Permutation_trans; [|apply Permutation_sym; exact P2].
+  apply Permutation_flat_map.
+  unfold resolve in R1, R2. destruct (all_some_perm _ _ _ (Permutation_map _ Hp) R1) as (fds2 & R2' & Hp2).
+  rewrite R2 in R2'. injection R2' as <-. exact Hp2.
+Qed.
+
+(* idempotence for all masks at the public entry point: the second call selects output face j iff the first call selected its
+   source face mapping[j] *)
+Theorem public_idempotent_masked vs fs ref n mask mask2 r r2 : vs <> [] -> mask_ok (length fs) mask ->
+  slice_triangles_by_plane ROps vs fs ref n mask = Ok r ->
+  length mask2 = length (mo_map r) ->
+  (forall j i, nth_error (mo_map r) j = Some i -> nth_error mask2 j = nth_error (mask_list (length fs) mask) i) ->
+  slice_triangles_by_plane ROps (mo_v r) (mo_f r) ref n (Some mask2) = Ok r2 ->
+  Permutation (mesh_tris (mo_v r2) (mo_f r2)) (mesh_tris (mo_v r) (mo_f r)).
+Proof.
+  intros Hvs Hm H1 Hl Hm2 H2.
+  exact (slice_idempotent_masked _ _ _ _ _ _ _ _ _ _ _ merge_tol_nonneg Hvs H1 (mask_of_public _ _ Hm) Hl Hm2 H2).
 Qed.
 
 (* ---- wrapping face entries at the public entry point (tol = 1e-8) -------------------------------------------------- *)
